@@ -77,7 +77,7 @@ h_offset_drop!(c01_offset_drop__tr16, Tr16, Tr16::new(), 1);
 h_offset_drop!(c01_offset_drop__tr64, Tr64, Tr64::new(), 1);
 // @h props=C01,C05 fuc=OffsetArc::drop,Arc::from_raw_offset,Arc::from_raw
 h_offset_drop!(c01_offset_drop__zst, Z, Z, 0);
-// @h props=C01,C05 tier=thorough fuc=OffsetArc::drop,Arc::from_raw_offset,Arc::from_raw
+// @h props=C01,C05 fuc=OffsetArc::drop,Arc::from_raw_offset,Arc::from_raw
 h_offset_drop!(c01_offset_drop__s1, S1, S1::any(), 0);
 
 // @h props=C01,C04 fuc=OffsetArc::with_arc,Arc::clone,Arc::drop
@@ -184,6 +184,23 @@ gproof! { fn c14_offset_eq_ne_debug_delegate() {
     let ok = vrt::debug_ok(&a);
     assert!(vrt::ip_calls(OP_DEBUG) == 1 && vrt::ip_total() == before + 1 && vrt::ip_args(da, unsafe { vrt::FMT_ADDR }) && ok == unsafe { vrt::IP_FMT_OK });
     assert!(ocnt(&a) == n && ocnt(&b) == m);
+    core::mem::forget(a);
+    core::mem::forget(b);
+} }
+
+// @h props=C14 fuc=OffsetArc::eq,OffsetArc::ne note="two OffsetArcs to the SAME allocation, payload possibly not equal to itself: == and != stay each other's negation (and equal the value's answer, or 'equal' under the same-allocation licence)"
+gproof! { fn c14_offset_same_allocation_eq_ne_consistent() {
+    use crate::vrt::Ip;
+    use core::cmp::Ordering as O;
+    let n = any_count();
+    let a = Arc::into_raw_offset(mk(Ip(kani::any()), n));
+    let b = a.clone();
+    let d = vrt::addr(&*a as *const Ip);
+    vrt::ip_setup(d, d);
+    let (e, ne) = (a == b, a != b);
+    assert!(e != ne);
+    assert!(e == (vrt::ip_ord() == Some(O::Equal)) || e);
+    assert!(unsafe { !vrt::IP_FOREIGN });
     core::mem::forget(a);
     core::mem::forget(b);
 } }
